@@ -49,10 +49,10 @@ def storage_history(case):
                 # something else (an archiver, an operator) takes one of the stored files away: ['rm', index of the store]
                 victim = sorted(before)[uid[1] % len(before)] if before else None
                 if victim:
+                    victim_body = before[victim][before[victim].index(b'PAYLOAD'):]
                     os.remove(os.path.join(d, victim))
                     del before[victim]
-                    head, _, tail = victim.partition('.dcm')
-                    ops.append('r:%s:%d' % (head, len(tail.split('_')) - 1 if tail else 0))
+                    ops.append('r@' + victim_body.hex())
                 continue
             cs = pydicom.Dataset(); cs.AffectedSOPClassUID = IMG; cs.AffectedSOPInstanceUID = uid
             ctx = ap.PContextDef(1, _u.UID(IMG), ts)
@@ -74,18 +74,18 @@ def storage_history(case):
                 return 'store #%d: the new file does not hold the instance' % (k + 1)
             before = after
             ops.append('s:%s:%s' % (uid, payload.hex()))
-        # correspondence with the Lean directory model (Store.applyOps): same files, same names, same contents
+        # correspondence with the Lean directory model (Store.applyOps): which instances survive, with which contents
+        # (how the files are *named* is the implementation's business and is not compared)
         if not case.get('pre'):
             got = []
             for n in sorted(before):
-                head, _, tail = n.partition('.dcm')
-                ks = [int(x) for x in tail.split('_')[1:]] if tail else []
-                if ks != list(range(1, len(ks) + 1)):
-                    return 'file name %r is not on the chain uid.dcm, uid.dcm_1, uid.dcm_1_2, ...' % n
-                got.append('%s#%d=%s' % (head, len(ks), before[n][before[n].index(b'PAYLOAD'):].hex()))
+                body = before[n][before[n].index(b'PAYLOAD'):]
+                k = int(body.split(b'-')[1])
+                got.append('%s=%s' % (case['uids'][k], body.hex()))
             want = common.driver(['dir-ops ' + ' '.join(ops)])[0]
-            if ' '.join(sorted(got)) != ' '.join(sorted(want.split())):
-                return 'model:the directory differs from the model after %r\nimpl  %s\nmodel %s' % (ops, ' '.join(sorted(got))[:300], want[:300])
+            model = sorted(x.split('#')[0] + '=' + x.split('=')[1] for x in want.split()) if want != 'bad-op' else ['bad-op']
+            if sorted(got) != model:
+                return 'model:the directory differs from the model after %r\nimpl  %s\nmodel %s' % (ops, ' '.join(sorted(got))[:300], ' '.join(model)[:300])
         return None
     finally:
         shutil.rmtree(d, ignore_errors=True)
